@@ -111,6 +111,14 @@ Definition step (w : world) (o : op) : world * list obs :=
     ({| w_enc := e'; w_dec := w_dec w0; w_pk := w_pk w0; w_ob := w_ob w0; w_frames := fs; w_st := w_st w0; w_st2 := w_st2 w0 |},
      (if c =? 42 then [] else map (fun f => ob T_F [] [f]) fs) ++ [ob T_Q [zlen fs; e_seq e'] []])
   else if c =? 11 then (setdec w (n 0%nat) [], [])
+  else if c =? 54 then (w, [])   (* SLEEP: wall-clock time passes; nothing may depend on it *)
+  else if c =? 55 then
+    (* getRawCmpHeader + getRawMessageHeader: all 8 + 16 bytes are written, whatever the destination held *)
+    let p := getpk w (n 0%nat) in
+    match p_pl p with None => (w, [ob T_RNONE [] []]) | Some _ =>
+    (w, [ob T_R [0] [ser_fhdr {| f_ver := p_ver p; f_dev := p_dev p; f_mt := p_mt p; f_stream := p_stream p; f_seq := p_seq p |}
+                     ++ ser_mhdr (raw_mhdr p)]])
+    end
   else if c =? 51 then
     (* setData called with the object's OWN data pointer and a length not above the current data length (in-place truncation) *)
     match aget (n 0%nat) (w_ob w) with
